@@ -89,17 +89,24 @@ func drawRule(t *rapid.T, c *hx.Case, i int) *mrule {
 	}
 }
 
+// pacerFirst: a pacing (throttling) rule on resource a is listed before the reject rules of the case: requests in a burst
+// are asked to wait a little and the reject rules are consulted when that wait is over.
+var pacerFirst bool
+
 func load(t *rapid.T, ms []*mrule) {
-	cp := make([]*flow.Rule, len(ms))
-	for i, m := range ms {
+	var cp []*flow.Rule
+	if pacerFirst {
+		cp = append(cp, &flow.Rule{ID: "pacer", Resource: "a", TokenCalculateStrategy: flow.Direct, ControlBehavior: flow.Throttling, Threshold: 50, MaxQueueingTimeMs: 3600000})
+	}
+	for _, m := range ms {
 		x := *m.r
-		cp[i] = &x
+		cp = append(cp, &x)
 	}
 	if _, err := flow.LoadRules(cp); err != nil {
 		t.Fatalf("LoadRules: %v", err)
 	}
-	if got := len(flow.GetRulesOfResource("a")); got != len(ms) {
-		t.Fatalf("%d valid rules loaded, module reports %d", len(ms), got)
+	if got := len(flow.GetRulesOfResource("a")); got != len(cp) {
+		t.Fatalf("%d valid rules loaded, module reports %d", len(cp), got)
 	}
 }
 
@@ -139,6 +146,10 @@ func TestSequential(t *testing.T) {
 	hx.Check(t, hx.N{Quick: 30000, Thorough: 300000}, func(t *rapid.T, c *hx.Case) {
 		hx.Reset(hx.Epoch + uint64(rapid.IntRange(0, 20000).Draw(t, "t0")))
 		ms := drawRules(t, c, 3)
+		pacerFirst = rapid.IntRange(0, 3).Draw(t, "pacingRuleFirst") == 0
+		hx.C.Advance = pacerFirst // the (single) caller really sleeps the wait it is asked for
+		defer func() { pacerFirst, hx.C.Advance = false, false }()
+		c.ClassIf(pacerFirst, "pacing-rule-listed-before-the-reject-rules")
 		load(t, ms)
 		nextID, reloaded := 10, false
 		passes := map[string][]adm{}
@@ -213,6 +224,7 @@ func TestSequential(t *testing.T) {
 			res := rapid.SampledFrom([]string{"a", "a", "b"}).Draw(t, "res")
 			b := uint32(rapid.SampledFrom([]int{1, 1, 1, 2, 3, 5, 30}).Draw(t, "batch"))
 			e, blk := sentinel.Entry(res, sentinel.WithBatchCount(b))
+			now = hx.C.Ms() // (later than the arrival when the pacing rule made the request wait)
 			expBlock, expVal := -1, 0.0
 			if res == "a" {
 				expBlock, expVal = decide(ms, passes, now, b)
